@@ -266,8 +266,8 @@ func (e *ArrayExp) FindRefs() []*RefExp {
 
 func (e *MapExp) FindRefs() []*RefExp {
 	var result []*RefExp
-	for _, v := range e.Value {
-		r := v.FindRefs()
+	for _, key := range e.sortedKeys() {
+		r := e.Value[key].FindRefs()
 		if len(r) > 0 {
 			if len(result) == 0 {
 				result = r
